@@ -5,9 +5,30 @@ from . import common as c
 RETRY_MARK = "dependency_monitor_test.go"  # package init listens on a fixed port; a parallel run can collide
 
 
+def wait_port_free(port=10638, limit=600):
+    """cmd/keymasterd's own test init listens on 127.0.0.1:10638 and its test binary dies at start when
+    another test binary of that package (any concurrent check run on this machine) holds the port."""
+    import socket
+    import time
+    t0 = time.time()
+    while time.time() - t0 < limit:
+        s = socket.socket()
+        s.settimeout(0.5)
+        try:
+            s.connect(("127.0.0.1", port))
+        except OSError:
+            return True
+        finally:
+            s.close()
+        time.sleep(0.5)
+    return False
+
+
 def harness(ctx, pkg, ops, race=False, tag="h"):
     """run_harness with a retry for the fixed-port collision of cmd/keymasterd's own test init."""
-    for attempt in range(4):
+    for attempt in range(8):
+        if pkg == "cmd/keymasterd":
+            wait_port_free()
         impl, log, rc = c.run_harness(ctx, pkg, "C20", ops, race=race, tag="%s%d" % (tag, attempt))
         if rc == 0 or RETRY_MARK not in log or len(impl) == len(ops):
             break
